@@ -79,6 +79,7 @@ def replay(d):
 
 
 def check(run):
+    run.level = "other"
     run.deductive(PC.MODULES)
     rnd = random.Random(run.seed)
     fails = {}
@@ -109,6 +110,13 @@ def check(run):
     one(base, 2, "dicts")
     one(base, 3, "csv")
     one(base, 2, "json")
+    # 1b. repeated reactions (also repeated only after atom-map removal) must stay separate rows
+    rep = [VALID[0], VALID[1], VALID[0], "[CH3:1][CH2:2][OH:3]>>[CH3:1][CH:2]=[O:3]", VALID[2], VALID[1]]
+    for bs in (None, 1, 2, 3, 4, len(rep), len(rep) + 1):
+        one(rep, bs)
+    one(rep, None, "dicts")
+    one(rep, 4, "csv")
+    one([VALID[3], VALID[3], VALID[3]], None)
     # 2. mixtures with malformed rows at every position (quick: one malformed row; thorough: two)
     bad = UNPARSABLE[:2] + NO_SEPARATOR[:3] + ([None] if run.tier != "quick" else [])
     for b in bad:
